@@ -8,7 +8,7 @@ impl-level probe : the property's own oracle on the real code: union of the fetc
                    rows (non-NULL t, partition filters); partition values; output_time_filter; LIMIT step after the
                    join; rejections raise PlanningException and nothing else; plan glue.
 """
-import copy, json, re, sqlite3, sys, traceback
+import copy, json, os, re, sqlite3, sys, traceback
 from tools.harness import common
 
 ID = 'C15'
@@ -17,12 +17,16 @@ _T = 'MindsVerif.Props.C15.'
 THEOREMS = [_T + n for n in (
     'C15_rows', 'C15_rows_tc', 'C15_partitions', 'C15_otf_partial', 'C15_otf_eq', 'C15_limit',
     'C15_reject_flags', 'C15_decision', 'C15_reject_where_partial', 'C15_validate_iff', 'C15_no_crash',
-    'C15_witness_1', 'C15_witness_3', 'C15_witness_4', 'C15_witness_6', 'C15_full_false')]
+    'C15_null_partition_empty', 'C15_rows_nullsafe', 'C15_reject_where_fixed', 'C15_validateDeep_iff',
+    'C15_rows_rev_fixed',
+    'C15_witness_1', 'C15_witness_3', 'C15_witness_4', 'C15_witness_6', 'C15_witness_null', 'C15_full_false')]
 ASSUME = [
     'plan_timeseries_predictor / ts_utils are hand-modelled (MindsVerif.TS.planTS); tie = plan correspondence stream (exact WHERE trees of every generated select)',
     'row semantics of the model (three-valued WHERE, ORDER BY t DESC as a stable sort of an arbitrary physical order, LIMIT) is tied to sqlite3 3.40 by the eval stream; sqlite3 is a reference engine, not part of a theorem',
     "'$var[col]' is read as substitution of the (non-NULL) partition value under SQL equality; reduce='union' as concatenation",
-    'theorem domain Dom: order column on the left of the time condition, integer constants, partition filters g op c / IN / BETWEEN in any AND nesting; outside it only the correspondence and the probe speak',
+    'theorem domain Dom: order column on the left of the time condition, constants of any totally preordered value domain (VOrd: Int, ISO date strings, ...), partition filters g op c / IN / BETWEEN in any AND nesting; outside it only the correspondence and the probe speak',
+    'the driver instantiates the value domain with Int; ISO date strings of the generated queries/tables are mapped to day numbers (order isomorphism) before they reach the model',
+    'NULL partition records: the probe fills `col = $var[col]` null-safely (col IS NULL), which is what C15_rows_nullsafe assumes of the executor; with plain SQL equality such a partition receives no rows (C15_null_partition_empty, eval stream E lines)',
     'plan glue (FROM table, SELECT *, integration, step wiring, join side) is checked by the probe, not proved',
 ]
 
@@ -31,6 +35,15 @@ GROUPS = ['g', 'h']
 BADOPS = ['or', '!=', 'like', 'is', '+', '-', '<>', 'not in', 'not like', '*', '/', '%', 'is not']
 OPMAP = {'and': 'and', '>': 'gt', '>=': 'ge', '=': 'eq', '<': 'lt', '<=': 'le', 'in': 'in'}
 CMPS = ['>', '>=', '=', '<', '<=']
+DATE_RE = r'2020-01-(\d\d)'
+
+
+def date_of(k):
+    return None if k is None else '2020-01-%02d' % k
+
+
+def day_of(s):
+    return None if s is None else int(re.fullmatch(DATE_RE, s).group(1))
 
 
 # ----------------------------------------------------------------------------------------------- real code access
@@ -124,8 +137,10 @@ def mentions_foreign(node, nG):
     from mindsdb_sql.planner.utils import query_traversal
     found = []
 
-    def cb(n, **kw):
-        if isinstance(n, ast.Identifier):
+    def cb(n, is_table=False, **kw):
+        if isinstance(n, ast.Select):
+            return n            # a sub-query has its own scope: not descended into
+        if isinstance(n, ast.Identifier) and not is_table:
             last = n.parts[-1].lower() if isinstance(n.parts[-1], str) else '*'
             if last != TIME and last not in GROUPS[:nG]:
                 found.append(last)
@@ -159,6 +174,9 @@ def absW(node, nG):
         m = isinstance(v, str) and re.fullmatch(r'\$var\[(\w+)\]', v)
         if m and m.group(1) in GROUPS:
             return '(v %d)' % GROUPS.index(m.group(1))
+        m = isinstance(v, str) and re.fullmatch(DATE_RE, v)
+        if m:       # ISO date strings: order-isomorphic to the day number (the model's value domain is abstract)
+            return '(c %d)' % int(m.group(1))
         raise Unabstractable('constant %r' % (v,))
     if isinstance(node, ast.Tuple):
         if all(isinstance(i, ast.Constant) and isinstance(i.value, int) and not isinstance(i.value, bool)
@@ -235,7 +253,8 @@ def model_line(case):
     w = case.get('absw')
     fl = case.get('flags', '0000')
     lim = case.get('limit')
-    return 'P %d %d %s %s %s' % (case['nG'], case['window'], fl, '-' if lim is None else lim, w if w else '-')
+    # C15_CFG=10|01|11: try the model of a proposed fix (fixes/C15_3, C15_4) against a patched work tree
+    return 'P' + os.environ.get('C15_CFG', '') + ' %d %d %s %s %s' % (case['nG'], case['window'], fl, '-' if lim is None else lim, w if w else '-')
 
 
 # ----------------------------------------------------------------------------------------------- generator
@@ -330,8 +349,11 @@ def gen_case(rng, kind=None):
         cls = rng.choice(['rev_lt', 'rev_le', 'rev_gt', 'rev_ge', 'rev_eq'])
     leaves, pfs = [], []
     tc = None
+    case['dates'] = rng.random() < 0.35
     if cls != 'none':
         tc = gen_tc(rng, cls)
+        if case['dates']:      # the same condition over ISO date strings
+            tc = (re.sub(r'\b(\d+)\b', lambda m: "'%s'" % date_of(int(m.group(1))), tc[0]),) + tc[1:]
         leaves.append((tc[0], tc[3]))
     for _ in range(rng.choice([0, 0, 1, 1, 2, 3]) if nG else 0):
         pf = gen_pf(rng, nG)
@@ -446,24 +468,36 @@ def render(query):
         return str(query)
 
 
-def substitute(query, pvals):
-    """fill '$var[col]' constants with the partition record (what MapReduceStep's executor does)"""
+def substitute(query, pvals, nullsafe=False):
+    """fill '$var[col]' constants with the partition record (what MapReduceStep's executor does).
+    nullsafe: a NULL record value turns `col = '$var[col]'` into `col IS NULL` (see C15_rows_nullsafe)"""
     _, _, _, _, ast, _ = _imports()
     from mindsdb_sql.planner.utils import query_traversal
     q = copy.deepcopy(query)
 
     def cb(n, **kw):
+        if nullsafe and isinstance(n, ast.BinaryOperation) and n.op == '=' and isinstance(n.args[1], ast.Constant) \
+                and isinstance(n.args[1].value, str):
+            m = re.fullmatch(r'\$var\[(\w+)\]', n.args[1].value)
+            if m and pvals[m.group(1)] is None:
+                return ast.BinaryOperation('is', args=[n.args[0], ast.NullConstant()])
         if isinstance(n, ast.Constant) and isinstance(n.value, str):
             m = re.fullmatch(r'\$var\[(\w+)\]', n.value)
             if m:
                 n.value = pvals[m.group(1)]
     query_traversal(q, cb)
+    if nullsafe and q.where is not None:
+        r = cb(q.where)
+        if r is not None:
+            q.where = r
     return q
 
 
-def make_db(rows):
+def make_db(rows, dates=False):
     db = sqlite3.connect(':memory:')
-    db.execute('create table tbl (id integer, t integer, g integer, h integer, x integer)')
+    db.execute('create table tbl (id integer, t %s, g integer, h integer, x integer)' % ('text' if dates else 'integer'))
+    if dates:
+        rows = [(r[0], date_of(r[1])) + tuple(r[2:]) for r in rows]
     db.executemany('insert into tbl values (?,?,?,?,?)', rows)
     return db
 
@@ -498,8 +532,24 @@ def otf_expected(case):
     for a in n.args:
         if isinstance(a, ast.Identifier):
             a.parts = [a.parts[-1]]
+    return norm_cond(n)
+
+
+MIRROR = {'>': '<', '>=': '<=', '<': '>', '<=': '>=', '=': '='}
+
+
+def norm_cond(n):
+    """a time condition up to the spelling `c op t` / `t op' c` (same meaning): (op, [printed operands])"""
+    _, _, _, _, ast, _ = _imports()
+    if n is None:
+        return None
+    n = copy.deepcopy(n)
     n.parentheses = False
-    return str(n)
+    op, args = n.op.lower(), list(n.args)
+    if isinstance(n, ast.BinaryOperation) and op in MIRROR and not isinstance(args[0], ast.Identifier) \
+            and isinstance(args[1], ast.Identifier):
+        op, args = MIRROR[op], [args[1], args[0]]
+    return (op, [str(a) for a in args])
 
 
 def probe_case(case, tables):
@@ -577,9 +627,13 @@ def probe_case(case, tables):
                 fail('limit-wrong', 'LimitOffsetStep(limit=%r, offset=%r) for LIMIT %d' % (nxt.limit, nxt.offset, lim))
         # ---- output_time_filter = the user's time condition
         exp = otf_expected(case)
-        act = None if ap.output_time_filter is None else str(ap.output_time_filter)
+        act = norm_cond(ap.output_time_filter)
         if exp != act:
-            fail('otf:%s' % case['cls'], 'output_time_filter is %r, the user\'s time condition is %r' % (act, exp),
+            # the `=` -> `>` rewrite (whatever the spelling of the user's condition) is the class of KF-C15-1
+            eq_gt = exp is not None and act is not None and exp[0] == '=' and act[0] == '>' and exp[1] == act[1]
+            fail('otf:eq' if eq_gt else 'otf:%s' % case['cls'],
+                 'output_time_filter is %r, the user\'s time condition is %r' % (
+                     str(ap.output_time_filter) if ap.output_time_filter is not None else None, exp),
                  expected=exp, actual=act)
     except Exception as e:
         fail('glue-exception', 'cannot inspect plan: %s' % traceback.format_exc()[-300:])
@@ -587,7 +641,7 @@ def probe_case(case, tables):
     # ---- rows
     tc, pfs = case['_tc'], case['_pfs']
     for rows in tables:
-        db = make_db(rows)
+        db = make_db(rows, bool(case.get('dates')))
         try:
             _probe_rows(case, rows, db, part, subs, nG, tc, pfs, fail)
         except sqlite3.Error as e:
@@ -611,14 +665,14 @@ def _probe_rows(case, rows, db, part, subs, nG, tc, pfs, fail):
                 fail('partitions', 'partition values differ from the group values of the rows selected by the '
                      'non-time filters', table=rows, got=sorted(got, key=str), want=sorted(want, key=str))
                 return
-            pvals = sorted((p for p in got if all(v is not None for v in p)))
+            pvals = sorted(got, key=str)      # NULL group values are partition values too (null-safe executor)
         else:
             pvals = [()]
         for p in pvals:
             pd = dict(zip(GROUPS, p))
             fetched = []
             for f in subs:
-                fetched += [r[0] for r in db.execute(render(substitute(f.query, pd))).fetchall()]
+                fetched += [r[0] for r in db.execute(render(substitute(f.query, pd, nullsafe=True))).fetchall()]
             base = [r for r in rows if r[1] is not None and pf_ok(r) and all(r[2 + i] == p[i] for i in range(nG))]
             cond = [r for r in base if (tc is None or tc[1](r[1]))]
             cand = [r for r in base if (tc is not None and tc[2] is not None and tc[2](r[1]))]
@@ -643,7 +697,8 @@ def _probe_rows(case, rows, db, part, subs, nG, tc, pfs, fail):
             if why:
                 fail('rows:%s' % case['cls'], why, table=rows, partition=list(p), fetched=sorted(fetched),
                      cond=sorted(r[0] for r in cond), candidates=sorted(r[0] for r in cand),
-                     selects=[render(substitute(f.query, pd)).replace('\n', ' ') for f in subs])
+                     dates=bool(case.get('dates')),
+                     selects=[render(substitute(f.query, pd, nullsafe=True)).replace('\n', ' ') for f in subs])
                 return
 
 
@@ -744,19 +799,26 @@ def run(chk):
             try:
                 part, subs, data, di = fetch_steps(plan, case['nG'])
                 rows = tables[0]
-                db = make_db(rows)
-                groups = sorted(set(tuple(r[2 + i] for i in range(case['nG'])) for r in rows
-                                    if all(r[2 + i] is not None for i in range(case['nG']))))[:2] or [tuple([0] * case['nG'])]
+                dates = bool(case.get('dates'))
+                db = make_db(rows, dates)
+                allg = sorted(set(tuple(r[2 + i] for i in range(case['nG'])) for r in rows), key=str)
+                groups = [g for g in allg if None not in g][:2] or [tuple([0] * case['nG'])]
+                groups += [g for g in allg if None in g][:1]          # one partition record with a NULL
+                cell = lambda v: 'n' if v is None else str(v)
                 for p in groups:
                     pd = dict(zip(GROUPS, p))
-                    for f in subs:
-                        w = absW(f.query.where, case['nG'])
-                        if 'O' in w or 'L' in w:
-                            continue
-                        got = db.execute(render(substitute(f.query, pd))).fetchall()
-                        lim = '-' if f.query.limit is None else str(f.query.limit.value)
-                        elines.append('E %s %s %s %s' % (','.join(map(str, p)) or '-', row_line(rows, case['nG']), lim, w))
-                        emeta.append((case['sql'], rows, p, got, f.query.limit is None, case['nG']))
+                    for mode in (('E', 'F') if None in p else ('E',)):
+                        for f in subs:
+                            w = absW(f.query.where, case['nG'])
+                            if 'O' in w or 'L' in w:
+                                continue
+                            got = db.execute(render(substitute(f.query, pd, nullsafe=(mode == 'F')))).fetchall()
+                            if dates:
+                                got = [(r[0], day_of(r[1])) + tuple(r[2:]) for r in got]
+                            lim = '-' if f.query.limit is None else str(f.query.limit.value)
+                            elines.append('%s %s %s %s %s' % (mode, ','.join(map(cell, p)) or '-',
+                                                              row_line(rows, case['nG']), lim, w))
+                            emeta.append((case['sql'], rows, p, got, f.query.limit is None, case['nG']))
             except (Unabstractable, sqlite3.Error):
                 pass
     # ---- plan correspondence
@@ -810,11 +872,11 @@ def replay(path):
     print('real plan now:', line, err or '')
     if f.get('table') is not None and plan is not None:
         part, subs, data_step, di = fetch_steps(plan, f['nG'])
-        db = make_db([tuple(r) for r in f['table']])
+        db = make_db([tuple(r) for r in f['table']], bool(f.get('dates')))
         pd = dict(zip(GROUPS, f.get('partition', [])))
         got = []
         for s in subs:
-            sql = render(substitute(s.query, pd)).replace('\n', ' ')
+            sql = render(substitute(s.query, pd, nullsafe=True)).replace('\n', ' ')
             r = [x[0] for x in db.execute(sql).fetchall()]
             print('  ', sql, '->', r)
             got += r
